@@ -259,16 +259,16 @@ def mpc_pow_int(z, n, prec, rnd=round_fast):
     if b == fzero:
         return mpf_pow_int(a, n, prec, rnd), fzero
     if a == fzero:
-        v = mpf_pow_int(b, n, prec, rnd)
-        n %= 4
-        if n == 0:
+        # (b*i)**n = b**n * i**n; where i**n contributes a minus sign the
+        # power must be rounded in the mirrored direction before negating
+        m = n % 4
+        if m >= 2:
+            v = mpf_neg(mpf_pow_int(b, n, prec, negative_rnd[rnd]))
+        else:
+            v = mpf_pow_int(b, n, prec, rnd)
+        if m == 0 or m == 2:
             return v, fzero
-        elif n == 1:
-            return fzero, v
-        elif n == 2:
-            return mpf_neg(v), fzero
-        elif n == 3:
-            return fzero, mpf_neg(v)
+        return fzero, v
     if n == 0: return mpc_one
     if n == 1: return mpc_pos(z, prec, rnd)
     if n == 2: return mpc_square(z, prec, rnd)
